@@ -2,6 +2,7 @@
 //@props C10,C03,C06,C05
 //@tier quick
 //@profile rel
+//@features default
 //@assume callee contracts: FrameDecoder::decode_blocks (PROVED in Verus unit FD1V; shared text include/contract_decode_blocks.rs), FrameDecoder::init (Kani H2/H4/FD4: a fresh unfinished state whose counter is the header bytes consumed; a skippable frame is reported as SkipFrame after exactly 8 bytes), Read for FrameDecoder (Kani D1/D2: draining only touches the buffer), can_collect (D2), is_finished (proved in FD1V)
 //@assume in StreamingDecoder::read `DEC` is instantiated with FrameDecoder (whose BorrowMut is the identity) and the default feature set is taken (R-cfgfeat: the `std` arm of the error conversion); FrameDecoder::read hands out min(collectable, request) (Kani D1/D2), can_collect is abstract
 //@assume the input slice is modelled as a reader that shrinks from the front (std / Kani IO1); here it is the COMPLETE input, so running out of bytes is an error (C10), not "need more"
